@@ -13,7 +13,9 @@ request/response messages or the assembly automaton:
   early end is reported as an error unless it falls on a frame boundary (no phantom, no silent loss).
 * SNAPSHOT. The bytes a snapshot request returns are the bytes the UDF supplied; the bytes the UDF is asked to
   restore are the bytes that were passed in.
-Core Lean only. The data structures `Point`, `Begin`, `BP` are shared with the model; none of its functions is used.
+Core Lean only. The data structures `Point`, `Begin`, `BP` are shared with the model; the property clauses use none
+of its functions. The two RECORDED DEVIATIONS at the end (findings/C19.txt) are stated with `utf8.Valid`,
+`models.SortedKeys` and `models.ToGroupID` as the model transcribes them.
 -/
 import Kap.Model.C19
 namespace Kap.C19
@@ -70,5 +72,35 @@ def framingTruncated {μ : Type} [DecidableEq μ] (written read : List μ) (lens
 
 /-- SNAPSHOT. -/
 def snapshotIdentity (supplied returned : List Nat) : Bool := decide (supplied = returned)
+
+/-! ### Recorded deviations (known findings): precise clauses on the INPUT and the deviated output -/
+
+def fieldStrings (f : Fields) : List Str :=
+  f.flatMap (fun e => match e.2 with | .str s => [e.1, s] | _ => [e.1])
+def tagStrings (t : Tags) : List Str := t.flatMap (fun e => [e.1, e.2])
+
+/-- Every Go string a data message carries. -/
+def Data.strings : Data → List Str
+  | .point p => [p.name, p.db, p.rp, p.group] ++ p.dims ++ tagStrings p.tags ++ fieldStrings p.fields
+  | .batch b pts => [b.name, b.group] ++ tagStrings b.tags ++ pts.flatMap (fun bp => tagStrings bp.tags ++ fieldStrings bp.fields)
+
+/-- `Dev invalid-utf8`: the message carries a string that is not valid UTF-8. Deviated output: the server aborts;
+what came back is the echo of a prefix of the messages sent before it. -/
+def devUtf8 (d : Data) : Bool := d.strings.any (fun s => !validUTF8 s)
+
+/-- `Dev batch-dims-rederived`: a batch whose dimension list is not the sorted list of its tag keys
+(`GroupByNode` builds such a header with `SetTagsAndDimensions` when a dimension is named twice in `groupBy`).
+Deviated output: the same batch with the dimensions re-derived from the tags and the group ID of those. -/
+def devDims : Data → Bool
+  | .batch b _ => decide (b.dims ≠ sortedKeys b.tags)
+  | _ => false
+
+def devDimsOut : Data → Data
+  | .batch b pts => .batch { b with dims := sortedKeys b.tags, group := toGroupID b.name b.tags b.byName (sortedKeys b.tags) } pts
+  | d => d
+
+/-- ECHO IDENTITY up to the recorded deviation `batch-dims-rederived` (equal to `echoIdentity` when no sent batch
+satisfies `devDims`). -/
+def echoIdentityUpToDims (sent received : List Data) : Bool := echoIdentity (sent.map devDimsOut) received
 
 end Kap.C19
